@@ -2,7 +2,6 @@
    after the model was last aligned with /repo. Committed; checks never rewrite it. *)
 From CV Require Import Model.Base.
 
-Definition frozen_rmcache_stmts : text := (T "1ef8af07957244d2").
 Definition frozen_fmgmtapi_all : text := (T "531585651af18068").
 Definition frozen_frbacapi_all : text := (T "e7aefe767c6b1197").
 Definition frozen_femitter_all : text := (T "ecddd892771c5928").
